@@ -79,6 +79,7 @@ type c01Ack struct {
 type c01Result struct {
 	Violations01      []string // C01
 	Violations05      []string // C05
+	Violations02      []string // C02: stored offsets unique / increasing, ack base == first stored offset
 	Acks              []c01Ack
 	Published         []int64 // sequence of published values (next offset)
 	Trace             []string
@@ -309,6 +310,38 @@ func c01Run(t *testing.T, p c01Plan) (res c01Result) {
 			return
 		}
 
+		// C02 on the stored log: over all complete segments in key order the batches must have
+		// strictly increasing, non-overlapping offset ranges, and every acked batch must sit
+		// at exactly the base offset that was acknowledged (and nowhere else).
+		{
+			segs, bad := vfCompleteSegments(obj, c01Prefix)
+			for _, b := range bad {
+				res.Violations02 = append(res.Violations02, "complete segment does not decode: "+b)
+			}
+			next := int64(-1)
+			where := map[string][]int64{}
+			for _, sg := range segs {
+				for _, b := range sg.Batches {
+					if b.BaseOffset < next {
+						res.Violations02 = append(res.Violations02, fmt.Sprintf("stored log is not strictly increasing: batch at base offset %d follows offsets up to %d (segment base %d)", b.BaseOffset, next-1, sg.BaseOffset))
+					}
+					next = b.BaseOffset + int64(len(b.Records))
+					if len(b.Records) > 0 {
+						v := string(b.Records[0].Value)
+						if i := strings.LastIndex(v, "-"); i > 0 {
+							where[v[:i]] = append(where[v[:i]], b.BaseOffset)
+						}
+					}
+				}
+			}
+			for _, a := range res.Acks {
+				at := where[a.Tag]
+				if len(at) != 1 || at[0] != a.Base {
+					res.Violations02 = append(res.Violations02, fmt.Sprintf("batch %s was acknowledged at base offset %d but the stored log holds it at %v", a.Tag, a.Base, at))
+				}
+			}
+		}
+
 		// restart: fresh log from the published offset, no faults, no gates
 		obj.Fault, obj.OnOp = nil, nil
 		mu.Lock()
@@ -408,6 +441,16 @@ func c01Check(t *testing.T, focus string) {
 				rt.Fatalf("%s", v)
 			}
 		}
+		if focus == "C02" {
+			if r.FailedFlush && len(r.Acks) > 0 {
+				if st.NonTrivial(c01Shape(p)) {
+					st.Sample(c01Sample(p, r))
+				}
+			}
+			if len(r.Violations02) > 0 {
+				rt.Fatalf("C02 violated: %s\ntrace: %v", strings.Join(r.Violations02, "\n"), r.Trace)
+			}
+		}
 		if focus == "C01" && len(r.Violations01) > 0 {
 			sort.Strings(r.Violations01)
 			rt.Fatalf("C01 violated: %s\ntrace: %v", strings.Join(r.Violations01, "\n"), r.Trace)
@@ -420,5 +463,6 @@ func c01Check(t *testing.T, focus string) {
 
 func TestVF_C01_LogSched(t *testing.T) { c01Check(t, "C01") }
 func TestVF_C05_LogSched(t *testing.T) { c01Check(t, "C05") }
+func TestVF_C02_LogSched(t *testing.T) { c01Check(t, "C02") }
 
 var _ = os.Getenv
